@@ -900,7 +900,8 @@ Definition is_OM_begin (n : stepname) (r : orec) : bool :=
             and at which no hook is triggered (the weight list of a pass is fixed on entry)
           6 after teardown a started call is still pending and not cancelled
           7 built-in work (run event) not between the negative and non-negative hooks
-          8 crash or hang                                                                  *)
+          8 crash or hang
+          9 a well-formed trigger expression was not read as name, signed weight (see below)  *)
 
 Definition op_event (o : op) : option evt :=
   match o_kind o with OEvent e => Some e | OForceError => Some GO_ERROR | _ => None end.
@@ -1030,8 +1031,8 @@ Fixpoint mon08_ops (hooks : list hook) (ops : list op) (oos : list opobs) (segs 
             [ (if not_early_ok hooks recs opi then 0 else 1);
               (if weight_order_ok hooks e src dst recs then 0 else 2);
               (match oo_res oo with XOk => if steps_ok e src dst recs then 0 else 3 | _ => 0 end);
-              await_code hooks e src dst before recs opi pend;
-              (if builtin_split_ok hooks e recs then 0 else 7) ]
+              (if builtin_split_ok hooks e recs then 0 else 7);
+              await_code hooks e src dst before recs opi pend ]
         | None => 0
         end
       | None =>
@@ -1039,16 +1040,39 @@ Fixpoint mon08_ops (hooks : list hook) (ops : list op) (oos : list opobs) (segs 
           if forallb (fun p => snd p) (oo_pend oo) then 0 else 6
         else 0
       end in
-    if c =? 0 then mon08_ops hooks ops' oos' segs' (before ++ recs) (oo_state oo) (oo_pend oo) (N.succ opi)
+    (* code 5 (a recorded finding) does not hide what the later operations show *)
+    if (c =? 0) || (c =? 5) then
+      let r := mon08_ops hooks ops' oos' segs' (before ++ recs) (oo_state oo) (oo_pend oo) (N.succ opi) in
+      if r =? 0 then c else r
     else c
   | _, _, _ => 0
+  end.
+
+(* code 9: the documented reading of a well-formed trigger expression (a name without sign
+   characters, optionally followed by one sign and 1..18 decimal digits): name, signed weight,
+   no sign means +0.  Written without the model's parser. *)
+Fixpoint split_first_sign (l : str) (acc : str) : option (str * N * str) :=
+  match l with
+  | [] => None
+  | c :: r => if is_sign c then Some (rev acc, c, r) else split_first_sign r (c :: acc)
+  end.
+Definition dec_val (ds : str) : Z := fold_left (fun a c => (a * 10 + Z.of_N (c - 48))%Z) ds 0%Z.
+Definition parse_expected (s : str) : option (str * Z) :=
+  match split_first_sign s [] with
+  | None => Some (s, 0%Z)
+  | Some (name, c, ds) =>
+    if forallb is_dig ds && (1 <=? Nlen ds) && (Nlen ds <=? 18)
+    then Some (name, if c =? 45 then (- dec_val ds)%Z else dec_val ds)
+    else None     (* malformed: no claim *)
   end.
 
 Definition mon08 (c : c08_case) : N :=
   match c with
   | CParse s n w =>
-    (* the documented reading: name, optional sign and digits; no sign means +0 *)
-    0
+    match parse_expected s with
+    | Some (n', w') => if str_eqb n n' && Z.eqb w w' then 0 else 9
+    | None => 0
+    end
   | CRun hooks init ops o =>
     if ob_crashed o || ob_hung o then 8
     else mon08_ops hooks ops (ob_ops o) (split_ops (ob_recs o) [] false) [] init [] 0
@@ -1354,9 +1378,11 @@ Fixpoint mon10_ops (hooks : list hook) (ops : list op) (oos : list opobs) (segs 
         | _ => 0
         end
       end in
-    if c =? 0 then
-      mon10_ops hooks ops' oos' segs' (oo_state oo) v (oo_rn oo)
-                (match started_run recs with Some n => n | None => last_run end) (N.succ opi)
+    (* codes 7 and 10 (recorded findings) do not hide what the later operations show *)
+    if (c =? 0) || (c =? 7) || (c =? 10) then
+      let r := mon10_ops hooks ops' oos' segs' (oo_state oo) v (oo_rn oo)
+                 (match started_run recs with Some n => n | None => last_run end) (N.succ opi) in
+      if r =? 0 then c else r
     else c
   | _, _, _ => 0
   end.
